@@ -53,6 +53,50 @@ def ensure_build():
         lock.close()
 
 
+def dep_closure(targets):
+    """Source files (relative to coq/) the given .v files depend on, themselves included, read from
+    the dependency file coq_makefile writes (.Makefile.d)."""
+    deps = {}
+    dfile = os.path.join(common.COQ, ".Makefile.d")
+    if os.path.exists(dfile):
+        for line in open(dfile):
+            if ":" not in line:
+                continue
+            left, right = line.split(":", 1)
+            outs = [x for x in left.split() if x.endswith(".vo")]
+            ins = [x[:-3] + ".v" for x in right.split() if x.endswith(".vo")]
+            for o in outs:
+                deps[o[:-3] + ".v"] = ins
+    seen, todo = set(), list(targets)
+    while todo:
+        x = todo.pop()
+        if x in seen:
+            continue
+        seen.add(x)
+        todo.extend(deps.get(x, []))
+    return seen
+
+
+def relevant_failures(pid, build):
+    """What of a failed build concerns property pid: failed files and rejected translators among the
+    dependencies of Props/<pid>.v and of the extracted checker (Valid/Dispatch.v), and a missing checker
+    binary.  A failure elsewhere in the development is some other property's business."""
+    out = []
+    clo = dep_closure(["Props/%s.v" % pid, "Valid/Dispatch.v", "Extract/Extract.v"])
+    if not build["ok"]:
+        rel = [f for f in build["failed_files"] if f in clo]
+        if rel:
+            out.append("Coq build failed: " + ", ".join(rel) + " :: " + build["log"][-400:])
+        elif not build["failed_files"]:
+            out.append("build failed: " + build["log"][-400:])
+    for tr in build.get("translators") or []:
+        if tr["status"] != "ok" and ("Gen/" + tr["file"]) in clo:
+            out.append("translator %s: %s" % (tr["file"], tr["status"]))
+    if not os.path.exists(os.path.join(common.BUILD, "extract", "vchk")):
+        out.append("extracted checker build/extract/vchk is missing")
+    return out
+
+
 def run_props(pid):
     """Compile Props/<pid>.v on its own and read what Print Assumptions printed.
     Returns dict(ok, theorems:[{name, assumptions}], output)."""
